@@ -27,7 +27,8 @@ EXPLANATION = (
     'needs a descending walk - decided from the sign of (destination index - source index) under the invariants '
     'the octagon analysis proves (ii <= 8, cpos <= ii).  NOT '
     'decided: that the parser maps the text back to the same address (values over 2^128 inputs; the parser\'s '
-    'index arithmetic needs relational invariants, see C13).')
+    'index arithmetic needs relational invariants, see C13).'
+    ' Rounds 8-9: (TAB.2) every hex digit carries its value in the character table (an initialiser that cannot be folded is analysis-broken).')
 ASSUMPTIONS = ['clang 14 CFG', 'of the parser irc_pton only the direction of its overlapping group copy is decided here (its memory clause is C13)']
 
 
